@@ -9,7 +9,8 @@ ID = "C08"
 RULE = ("clique covers as lists of vertex-id lists: exhaustive over all ordered covers of <= 2 (quick) / <= 3 (thorough) "
         "cliques drawn from the non-empty subsets of a 4-vertex universe, 0- and 1-based (gapped ones form the malformed "
         "stream), then seeded random covers on 2..9 vertices with size menus incl. non-adjacent sizes ({2,4},{2,5},{1,3,6}), "
-        "overlapping cliques, both bases, both construction paths; malformed: id gaps, ids starting at >= 2, negative ids, "
+        "clique sizes up to 16 ({2,8},{3,9},{2,10,12},...), overlapping cliques, both bases, both construction paths; in a "
+        "quarter of the random cases a SECOND loader object is constructed and kept alive before the first is read; malformed: id gaps, ids starting at >= 2, negative ids, "
         "empty cover, empty clique, repeated vertex. Compared: motif_sizes, the jdd as a key->value map (floats within 1e-9 "
         "of the model's exact rational), exception class. Non-trivial = valid cover (contiguous ids from 0/1) with >= 2 "
         "distinct clique sizes or a missing size below the largest; distinct by (cover, path)")
@@ -60,6 +61,9 @@ def corpus():
                 [[0, 0, 1]]):
         for path in (0, 1):
             out.append({"cover": cov, "path": path})
+    big = [list(range(8)), [7, 8]]
+    out.append({"cover": big, "path": 0})                                       # sizes {2,8}
+    out.append({"cover": [[0, 1], [1, 2, 3]], "path": 0, "other": [[0, 1, 2, 3], [3, 4]]})  # two live loaders
     return out
 
 
@@ -69,11 +73,13 @@ def _compress(cover, base):
     return [[m[v] for v in c] for c in cover]
 
 
-MENUS = [[2], [3], [2, 3], [2, 4], [2, 5], [1, 3, 6], [1, 2], [3, 4, 5], [2, 3, 4], [1, 6], [4], [2, 6], [1, 2, 3, 4, 5, 6]]
+MENUS = [[2], [3], [2, 3], [2, 4], [2, 5], [1, 3, 6], [1, 2], [3, 4, 5], [2, 3, 4], [1, 6], [4], [2, 6], [1, 2, 3, 4, 5, 6],
+         # sizes >= 8: a Python set of small ints stops iterating in ascending order there
+         [2, 8], [3, 9], [8, 9], [2, 10, 12], [5, 8, 11], [2, 16], [7, 8], [3, 8, 16]]
 
 
 def _random_cover(rng):
-    n = rng.randint(2, 9)
+    n = rng.randint(2, 9) if rng.random() < 0.7 else rng.randint(9, 17)
     menu = [s for s in rng.choice(MENUS) if s <= n] or [min(2, n)]
     ncl = rng.randint(1, 7)
     cover = []
@@ -93,10 +99,14 @@ def generate(rng, tier):
             for base in (0, 1):
                 yield {"cover": [[v + base for v in c] for c in cs], "path": (k + base) % 2}
     nrand = 700 if tier == "quick" else 6000
-    for _ in range(nrand):
+    for i in range(nrand):
         cov = _random_cover(rng)
         base = rng.randint(0, 1)
-        yield {"cover": _compress(cov, base), "path": rng.randint(0, 1)}
+        c = {"cover": _compress(cov, base), "path": rng.randint(0, 1)}
+        if i % 4 == 0:
+            # a second loader object is built (and stays alive) before the first one is read
+            c["other"] = _compress(_random_cover(rng), rng.randint(0, 1))
+        yield c
     # malformed stream
     nbad = 200 if tier == "quick" else 1500
     for _ in range(nbad):
@@ -131,6 +141,10 @@ def impl(case):
         else:
             jd = JointDegreeDistribution.load_joint_degree(
                 {JointDegreeNames.JOINT_DEGREE_TYPE: "cover", JointDegreeNames.COVER: cover})
+    other = None
+    if case.get("other"):
+        with oracles.forbid_random():
+            other = JointDegreeCover({JointDegreeNames.COVER: copy.deepcopy(case["other"])})
     jdd = []
     for k, v in jd.jdd.items():
         tag = 1 if (isinstance(k, tuple) and all(type(x) is int for x in k)) else 0
@@ -201,8 +215,9 @@ def nontrivial_key(case, io):
 
 def shrink(case):
     cov = case["cover"]
+    extra = {"other": case["other"]} if case.get("other") else {}
     for i in range(len(cov)):
-        yield {"cover": cov[:i] + cov[i + 1:], "path": case.get("path", 0)}
+        yield dict({"cover": cov[:i] + cov[i + 1:], "path": case.get("path", 0)}, **extra)
     for i, c in enumerate(cov):
         if len(c) > 1:
             for j in range(len(c)):
@@ -213,9 +228,14 @@ def shrink(case):
                     base = case_base(case["cover"])
                     m = {v: k + base for k, v in enumerate(ids)}
                     new = [[m[v] for v in cc] for cc in new]
-                yield {"cover": new, "path": case.get("path", 0)}
+                yield dict({"cover": new, "path": case.get("path", 0)}, **extra)
     if case.get("path", 0) == 1:
         yield {"cover": cov, "path": 0}
+    if case.get("other"):
+        oc = case["other"]
+        for i in range(len(oc)):
+            if len(oc) > 1:
+                yield dict(case, other=oc[:i] + oc[i + 1:])
 
 
 def case_base(cov):
